@@ -440,8 +440,32 @@ class Query:
         self.sat_cap = sat_cap    # solver='auto': seconds given to the SAT back end before falling back to cbmc --cvc5
 
 
+class CustomQuery:
+    """a query decided by another solver-based engine (e.g. tools/pool_hb.py: z3 over events extracted from the IR)"""
+    def __init__(self, qid, fn, expect='pass', kf=None, bounds=None, note='', kf_marker=None):
+        self.qid, self.fn, self.expect, self.kf, self.bounds, self.note, self.kf_marker = qid, fn, expect, kf, bounds or {}, note, kf_marker
+        self.unit = self.harness = None
+        self.udefs = self.hdefs = {}
+        self.shim = False
+        self.timeout = 900
+
+
 def run_query(q, prop, seed, outdir):
     """returns result dict with verdict in PASS | CEX | ERROR"""
+    if isinstance(q, CustomQuery):
+        t0 = time.time()
+        try:
+            r = q.fn(q, prop, seed, outdir)
+        except Exception as ex:  # noqa
+            import traceback
+            r = dict(verdict='ERROR', error='custom engine failed: ' + traceback.format_exc()[-1500:])
+        r.setdefault('qid', q.qid)
+        r.setdefault('bounds', q.bounds)
+        r.setdefault('note', q.note)
+        r.setdefault('expect', q.expect)
+        r.setdefault('kf', q.kf)
+        r.setdefault('wall_s', round(time.time() - t0, 1))
+        return r
     r = dict(qid=q.qid, unit=q.unit, harness=q.harness, udefs=q.udefs, hdefs=q.hdefs, bounds=q.bounds,
              unwind=q.unwind, unwindset=q.unwindset, note=q.note, expect=q.expect, kf=q.kf, reduced_precision=q.reduced)
     t0 = time.time()
